@@ -2531,3 +2531,142 @@ func (c *Ctx) namedCreations(rule string, funcs []*FuncInfo, clause string) int 
 	}
 	return n
 }
+
+// FILL-STEP: a loop that fills a slice through a running position (`a[perm[nb]] = x; nb++`,
+// `a[k] = x; k++`) steps the position in the statement list of the store: a position that is never
+// stepped puts every element into the same slot and leaves the others nil.
+func (c *Ctx) fillStep(rule string, funcs []*FuncInfo, clause string) int {
+	n := 0
+	for _, fi := range funcs {
+		if fi.Decl.Body == nil {
+			continue
+		}
+		info := fi.Pkg.TypesInfo
+		per := 0
+		walkStack(fi.Decl.Body, func(nd ast.Node, stack []ast.Node) bool {
+			as, ok := nd.(*ast.AssignStmt)
+			if !ok || as.Tok != token.ASSIGN || len(as.Lhs) != 1 {
+				return true
+			}
+			ix, isIx := unparen(as.Lhs[0]).(*ast.IndexExpr)
+			if !isIx {
+				return true
+			}
+			if _, isSl := info.TypeOf(ix.X).Underlying().(*types.Slice); !isSl {
+				return true
+			}
+			// the enclosing loop and its own variables
+			var loop ast.Node
+			loopVars := map[types.Object]bool{}
+			for _, s := range stack {
+				switch l := s.(type) {
+				case *ast.RangeStmt:
+					loop = l
+					if o := identObj(info, l.Key); o != nil {
+						loopVars[o] = true
+					}
+					if l.Value != nil {
+						if o := identObj(info, l.Value); o != nil {
+							loopVars[o] = true
+						}
+					}
+				case *ast.ForStmt:
+					loop = l
+					if init, isAs := l.Init.(*ast.AssignStmt); isAs {
+						for _, lh := range init.Lhs {
+							if o := identObj(info, lh); o != nil {
+								loopVars[o] = true
+							}
+						}
+					}
+				}
+			}
+			if loop == nil {
+				return true
+			}
+			// the running position: an int local mentioned in the index, declared outside the loop,
+			// and stepped somewhere in the loop (otherwise it is a fixed position, not a cursor)
+			var pos types.Object
+			ast.Inspect(ix.Index, func(m ast.Node) bool {
+				if id, isId := m.(*ast.Ident); isId {
+					if o, isVar := info.Uses[id].(*types.Var); isVar && !o.IsField() && !loopVars[o] && isInteger(o.Type()) && !(o.Pos() > loop.Pos() && o.Pos() < loop.End()) {
+						if o.Parent() != nil && o.Parent() != fi.Pkg.Types.Scope() {
+							pos = o
+						}
+					}
+				}
+				return true
+			})
+			if pos == nil {
+				return true
+			}
+			steppedInFunc := false
+			ast.Inspect(fi.Decl.Body, func(m ast.Node) bool {
+				switch x := m.(type) {
+				case *ast.IncDecStmt:
+					if identObj(info, x.X) == pos {
+						steppedInFunc = true
+					}
+				case *ast.AssignStmt:
+					if len(x.Lhs) == 1 && identObj(info, x.Lhs[0]) == pos && (x.Tok == token.ADD_ASSIGN || x.Tok == token.SUB_ASSIGN) {
+						steppedInFunc = true
+					}
+				}
+				return true
+			})
+			// parameters and constants of the function are positions given from outside, not cursors
+			isParam := false
+			for k := 0; ; k++ {
+				p := paramObj(info, fi.Decl, k)
+				if p == nil {
+					break
+				}
+				if p == pos {
+					isParam = true
+				}
+			}
+			if isParam {
+				return true
+			}
+			var list []ast.Stmt
+			for i := len(stack) - 1; i >= 0 && list == nil; i-- {
+				switch b := stack[i].(type) {
+				case *ast.BlockStmt:
+					list = b.List
+				case *ast.CaseClause:
+					list = b.Body
+				}
+			}
+			stepped := false
+			for _, s := range list {
+				switch x := s.(type) {
+				case *ast.IncDecStmt:
+					if identObj(info, x.X) == pos {
+						stepped = true
+					}
+				case *ast.AssignStmt:
+					if len(x.Lhs) == 1 && identObj(info, x.Lhs[0]) == pos && x != as {
+						stepped = true
+					}
+				}
+			}
+			if !stepped && !steppedInFunc {
+				// never stepped anywhere: only a cursor if it starts at a constant and the store is in a loop
+				defs := localDefs(info, fi.Decl.Body, pos)
+				if len(defs) != 1 {
+					return true
+				}
+				if tv, has := info.Types[defs[0]]; !has || tv.Value == nil {
+					return true
+				}
+			}
+			n++
+			per++
+			key := fmt.Sprintf("%s/%s[%s]#%d", funcName(fi.Obj), c.src(ix.X), pos.Name(), per)
+			c.Check(stepped, rule, key, as.Pos(), "the running position is stepped where the element is stored",
+				fmt.Sprintf("`%s` stores through the running position %s inside a loop, and %s is not stepped in the statement list of the store: every element lands in the same slot and the other slots stay empty", c.src(as), pos.Name(), pos.Name())).Clause = clause
+			return true
+		})
+	}
+	return n
+}
